@@ -63,6 +63,26 @@ def needs_json_escape(s):
     return any(c in '\\"' or ord(c) < 0x20 for c in s)
 
 
+def has_digits_property(doc, ty=None):
+    """a property whose name consists of digits: printed unquoted it reads as a list index"""
+    tys = [ty] if ty else sorted({cps_str(r["type"]) for r in doc_types(doc)})
+    return any(s and any(p.isdigit() for p in s) for t in tys for s in prop_sets(doc, t))
+
+
+def doc_types(doc):
+    out = []
+    try:
+        res = doc["v"][doc["k"].index([ord(c) for c in "Resources"])]
+        for r in res["v"]:
+            if r.get("t") == "map" and [84, 121, 112, 101] in r["k"]:
+                tv = r["v"][r["k"].index([84, 121, 112, 101])]
+                if tv.get("t") == "str":
+                    out.append({"type": tv["v"]})
+    except (KeyError, ValueError, TypeError):
+        pass
+    return out
+
+
 def type_has_dotted_property(doc, ty):
     return any(s and any("." in p for p in s) for s in prop_sets(doc, ty))
 
@@ -100,11 +120,15 @@ def classify_properties(line):
                     keys.add("properties:string-inside-a-list-or-map-value-needing-a-json-escape")
                 elif type_has_dotted_property(doc, ty):
                     keys.add("shape:property-name-with-a-dot")
+                elif has_digits_property(doc, ty):
+                    keys.add("shape:property-name-of-digits")
                 else:
                     keys.add("properties:value-differs:%s" % sorted(want ^ got)[0][0])
         for name in want_props - got_props:
             if "." in name:
                 keys.add("shape:property-name-with-a-dot")
+            elif name.isdigit():
+                keys.add("shape:property-name-of-digits")
             else:
                 keys.add("properties:clause-missing")
     return keys or {"properties:unexplained"}
@@ -114,6 +138,8 @@ def classify_self(line, expect):
     """the template fails a printed rule although the printed structure is what the specification derives"""
     doc = line["doc"]
     spec_pass, uniform, nolist = expect
+    if has_digits_property(doc):
+        return {"shape:property-name-of-digits"}
     if spec_pass:
         return {"self-validates:implementation-fails-where-the-specification-passes"}
     keys = set()
@@ -172,7 +198,10 @@ def validate(res, tr, label):
         if verdict == "ok":
             res.add("traces_validated_against_impl")
         else:
-            res.violation("judge:%s:statuses-differ-from-Denote-of-the-printed-rules" % t[3], {"spec": t[4] if len(t) > 4 else None, **brief(lines[i])})
+            if has_digits_property(lines[i]["doc"]):
+                res.violation("shape:property-name-of-digits", {"spec": t[4] if len(t) > 4 else None, **brief(lines[i])})
+            else:
+                res.violation("judge:%s:statuses-differ-from-Denote-of-the-printed-rules" % t[3], {"spec": t[4] if len(t) > 4 else None, **brief(lines[i])})
     errs = tlc_tuples(out, "RGERROR")
     res.add("error_reports", len(errs))
     seen = res.cov.setdefault("relations", {})
